@@ -71,7 +71,8 @@ interface A:
 """
 
 KINDS = ["np", "pay", "view", "default", "getter", "unprot", "viaint",
-         "kw1", "kw2", "rawnp", "rawst", "libnp", "libview", "libint"]
+         "kw1", "kw2", "rawnp", "rawst", "libnp", "libview", "libint", "leaf"]
+# "leaf": a protected function that makes no call at all (must still check and take the lock)
 # kinds with a single exit shape (the exit parameter is ignored for them)
 FIXED_EXIT = ("kw1", "kw2", "rawnp", "rawst", "libnp", "libview", "libint")
 EXITS = ["fall", "retbranch", "retloop", "retint", "assert", "raise", "subfail", "deep"]
@@ -182,6 +183,7 @@ def _main_source(pragma):
     # ---- round 2 shapes
     L.append("@internal\n@pure\ndef _mix2(ok: bool, r: uint256) -> uint256:\n    if ok:\n        return " + MIX.format(acc=1, r="r", okc=2)
              + "\n    return " + MIX.format(acc=1, r="0", okc=1) + "\n")
+    L.append("\n".join(["@external"] + prot + ["def e_leaf(p: uint256) -> uint256:", "    return 1", ""]))
     # default-argument entry point: both selectors must lock
     L.append("\n".join(["@external", "@payable"] + prot + ["def e_kw(p: uint256, q: uint256 = 7) -> uint256:",
              "    assert q == 7", "    r: uint256 = self._mix(extcall A(self.att).cb(p))", "    if r > 0:", "        return r", "    return 0", ""]))
@@ -249,7 +251,7 @@ class ANode:
 
 
 def model_kind(kind, pragma):
-    if kind in ("np", "pay", "default", "viaint", "kw1", "kw2", "rawnp", "rawst", "libnp", "libint"):
+    if kind in ("np", "pay", "default", "viaint", "kw1", "kw2", "rawnp", "rawst", "libnp", "libint", "leaf"):
         return "Nonview"
     if kind in ("view", "libview"):
         return "View"
@@ -268,7 +270,7 @@ def coq_node(n, pragma):
     if n.kind == "nocode":      # a contract under construction has no code: the call succeeds and runs nothing
         return "Call 7%nat Unprot (BEnd false)"
     k = model_kind(n.kind, pragma)
-    if n.kind == "getter":
+    if n.kind in ("getter", "leaf"):
         return f"Call {n.c}%nat {k} (BEnd true)"
     view = n.kind in ("view", "libview")
     st = "true" if view else "false"
@@ -322,6 +324,8 @@ def entry_name(v):
         return "__default__"
     if v.kind in ("kw1", "kw2"):
         return "e_kw"
+    if v.kind == "leaf":
+        return "e_leaf"
     if v.kind in FIXED_EXIT:
         return f"e_{v.kind}_retbranch"
     return f"e_{v.kind}_{v.exit}"
